@@ -508,6 +508,7 @@ func genC03(tier string) []Scenario {
 			return strings.Join(h.hist, " | ")
 		})})
 	}
+	out = append(out, sharedNodeScenario())
 	for _, budget := range []int{1, 2} {
 		for _, asNode := range []bool{false, true} {
 			out = append(out, embedFlowScenario(budget, asNode))
@@ -547,6 +548,59 @@ func genC03(tier string) []Scenario {
 		out = append(out, shapeScenarioRuns(fmt.Sprintf("routing-extended runs=2 shape#%d=%s", i, d), d, []int{kLog, kBase, kFuncA}, mk, i%2 == 0, 2))
 	}
 	return out
+}
+
+// sharedNodeScenario: TWO flow objects G and F over the same node objects x, y, z (both start at
+// x): histories of five steps over {G.Connect(x,"a",nil|y|z), F.Connect(x,"a",nil|y|z), run G, run F}
+// and a final run of each.  A flow follows ITS OWN connections, whatever another flow that shares
+// the node has been told, before or after.
+func sharedNodeScenario() Scenario {
+	var h *H
+	body := func() {
+		ns := []*spec{{id: "x", kind: kLog, n: 1}, {id: "y", kind: kLog, n: 1}, {id: "z", kind: kLog, n: 1}}
+		roots := []*spec{
+			{id: "G", flow: &flowSpec{start: ns[0], edges: map[*spec]map[flyt.Action]*spec{}}},
+			{id: "F", flow: &flowSpec{start: ns[0], edges: map[*spec]map[flyt.Action]*spec{}}},
+		}
+		h = newH(roots[0])
+		h.menu = func(hh *H, c call) []answer {
+			if c.ph != pPost {
+				return []answer{{val: nil}}
+			}
+			return []answer{{action: "a"}}
+		}
+		real := []flyt.Node{h.build(ns[0]), h.build(ns[1]), h.build(ns[2])}
+		flows := []*flyt.Flow{flyt.NewFlow(real[0]), flyt.NewFlow(real[0])}
+		h.nodes[roots[0]], h.nodes[roots[1]] = flows[0], flows[1]
+		run := func(w int) {
+			h.root = roots[w]
+			h.runFlowOnce(flows[w], "run of "+roots[w].id)
+		}
+		for step := 0; step < 5; step++ {
+			op := core.Choose(8)
+			if op >= 6 {
+				run(op - 6)
+				continue
+			}
+			w, to := op/3, op%3
+			var toNode flyt.Node
+			var toSpec *spec
+			if to > 0 {
+				toNode, toSpec = real[to], ns[to]
+			}
+			core.Logf("%s.Connect(x,\"a\",%v)", roots[w].id, toSpec)
+			flows[w].Connect(real[0], "a", toNode)
+			setEdge(roots[w], ns[0], "a", toSpec)
+		}
+		run(0)
+		run(1)
+	}
+	return Scenario{Name: "two flows sharing their node objects: connect / run histories of five steps", Body: body, Check: stdCheck(func() string {
+		if h == nil {
+			return "?"
+		}
+		return strings.Join(h.hist, " | ")
+	})}
 }
 
 // embedFlowScenario: a sub-flow wrapped in a user type that embeds *flyt.Flow and overrides Post
